@@ -20,7 +20,9 @@
                    calls failPendingRequests(forwardedHost)); loop exits if the client is closed
      Abort         sendBatchRequest's select: ctx.Done / timer / batchConn.closed -> canceled := 1
      Return        sendBatchRequest's select: value or close observed on entry.res
-     Close         batchConn.Close / client closed                                              *)
+     Close         batchConn.Close / client closed
+     Restart       batchSendLoop recovered a panic and restarted itself: the batchConn keeps its
+                   reqBuilder (idAlloc and the entries already fetched), nothing else changes      *)
 From Coq Require Import List Arith Bool.
 Import ListNotations.
 
@@ -67,7 +69,8 @@ Inductive label :=
 | StreamFail (h : host)
 | Abort (c : caller) (k : errk)
 | Return (c : caller)
-| Close.
+| Close
+| Restart.
 
 Definition entry0 : entry := mkEntry 0 Fresh [] false None.
 
@@ -223,6 +226,7 @@ Definition step (s : state) (l : label) : option state :=
       end
   | Close =>
       Some (mkState (next_id s) (tab s) (ent s) (loops s) (epoch s) true (outdated s) (alloc s))
+  | Restart => Some s
   end.
 
 Fixpoint run (s : state) (ls : list label) : option state :=
@@ -248,3 +252,7 @@ Definition no_pending_of (h : host) (s : state) : bool :=
   forallb (fun x => negb (Nat.eqb (e_host (ent s (snd x))) h)) (tab s).
 
 Definition ids_of (s : state) : list id := map fst (tab s).
+
+(* the epoch copy held by a recv loop *)
+Definition loop_ep (l : lstate) : option nat :=
+  match l with LIdle ep => Some ep | LLoaded ep _ _ _ => Some ep | _ => None end.
